@@ -24,6 +24,7 @@ import (
 	"net/http"
 	"os"
 	"path/filepath"
+	"strings"
 	"sync"
 	"testing"
 	"time"
@@ -390,9 +391,56 @@ func TestVerifC17TLS(t *testing.T) {
 		r.close(nil)
 		time.Sleep(200 * time.Millisecond)
 	}
+	// ---- listener side, client histories: one client (one TLS session cache, as every real TLS client library keeps) visits
+	// listeners of the same node that share certificate and name but differ in what they demand of clients. What a listener
+	// demands must not depend on where the client has been before (session resumption).
+	for _, kind := range []string{"tls", "https", "quic"} {
+		type hl struct {
+			name, addr, ca string
+			verify         bool
+		}
+		var hls []hl
+		r, _, err := c17Run(func() *Config {
+			hls = nil
+			cfg := &Config{Rules: []RuleConfig{{Reject: 3}}}
+			for _, l := range []hl{{name: "open"}, {name: "verify-A", ca: caFile, verify: true}, {name: "verify-B", ca: otherCAFile, verify: true}} {
+				l.addr = c17FreeAddr(kind == "quic")
+				hls = append(hls, l)
+				cfg.Servers = append(cfg.Servers, ServerConfig{Tag: l.name, Protocol: kind, Listen: l.addr, Tls: TlsConfig{Cert: certFile, Key: keyFile, CA: l.ca, VerifyClientCert: l.verify}})
+			}
+			return cfg
+		})
+		if err != nil {
+			rep.Violate("C17:listener:start", fmt.Sprintf("client-histories %s: %v", kind, err), nil)
+			continue
+		}
+		for _, cc := range clientCerts[:3] {
+			ccfg := &tls.Config{RootCAs: x509.NewCertPool(), ServerName: "localhost", ClientSessionCache: tls.NewLRUClientSessionCache(8)}
+			ccfg.RootCAs.AddCert(ca.cert)
+			if cc.cert != nil {
+				ccfg.Certificates = []tls.Certificate{*cc.cert}
+			}
+			hist := ""
+			for _, li := range []int{0, 1, 2, 0, 2, 1, 1, 2, 2} {
+				l := hls[li]
+				want := !l.verify || (l.name == "verify-A" && cc.name == "signed-by-configured-ca") || (l.name == "verify-B" && cc.name == "signed-by-other-ca")
+				desc := fmt.Sprintf("client-history kind=%s client-cert=%s visited-before=[%s] now=%s", kind, cc.name, strings.TrimSpace(hist), l.name)
+				rep.Eval(desc)
+				served, detail := c17Ask(kind, l.addr, ccfg, query) // Clone() inside keeps the session cache shared
+				if served && !want {
+					rep.Violate(fmt.Sprintf("C17:listener:served-unauthenticated-client:%s:cert=%s:after-other-listener", kind, cc.name), "a query was served to a client whose certificate does not chain to this listener's CA (the same client, with its TLS session cache, had visited other listeners of the node before): "+desc, nil)
+				}
+				if !served && want {
+					rep.Violate(fmt.Sprintf("C17:listener:refused-acceptable-client:%s:cert=%s:after-other-listener", kind, cc.name), "query not served ("+detail+"): "+desc, nil)
+				}
+				hist += " " + l.name
+			}
+		}
+		r.close(nil)
+		time.Sleep(200 * time.Millisecond)
+	}
 	rep.Sample(map[string]any{"upstream": "tls://[2001:db8::53] server-cert=valid options=ca", "expect": "success, no SNI, certificate verified for the IP"})
 }
-
 // c17Ask sends one query to a listener with the given client TLS configuration; served = a DNS response came back.
 func c17Ask(kind, addr string, ccfg *tls.Config, query []byte) (served bool, detail string) {
 	switch kind {
